@@ -11,7 +11,7 @@ include!("img.rs");
 //@ tier: quick
 //@ timeout: 1800
 //@ mem: 14
-//@ unwindset: read_sig=66; read_id=34; read_pubkey=34; read_hex=66; memcmp.0=34; copy_text=600; read_u64=22; read_kind=8; burn_string=26; eat_whitespace=6; burn_number=12; patch_site=24; digits=24; fpatch=24; put_bytes=70; enc_tags=6
+//@ unwindset: read_sig=66; memchr=12; parse_json_event=12; json_unescape=40; read_id=34; read_pubkey=34; read_hex=66; memcmp.0=34; copy_text=600; read_u64=22; read_kind=8; burn_string=26; eat_whitespace=6; burn_number=12; patch_site=24; digits=24; fpatch=24; put_bytes=70; enc_tags=6
 //@ encodes: Event::from_json, parse_json_event (every byte of the output image)
 //@ bounds: one valid text (compact order 1 / 426-byte order 2 with whitespace, two unknown members and deferred content) parsed into a zeroed buffer and into a buffer with arbitrary prior contents: the two events are byte-identical at every index and compare equal
 //@ outside: other texts
@@ -51,7 +51,7 @@ fn prior_buffer(text: &[u8]) {
 //@ tier: quick
 //@ timeout: 2400
 //@ mem: 16
-//@ unwindset: read_sig=66; read_id=34; read_pubkey=34; read_hex=66; memcmp.0=34; put_bytes=70; copy_text=600; read_u64=22; read_kind=8; burn_string=26; eat_whitespace=6; burn_number=12; patch_site=24; digits=24; fpatch=24; enc_tags=6
+//@ unwindset: read_sig=66; memchr=12; parse_json_event=12; json_unescape=40; read_id=34; read_pubkey=34; read_hex=66; memcmp.0=34; put_bytes=70; copy_text=600; read_u64=22; read_kind=8; burn_string=26; eat_whitespace=6; burn_number=12; patch_site=24; digits=24; fpatch=24; enc_tags=6
 //@ encodes: Event::from_json, Event::from_parts, Event::eq
 //@ bounds: the same event written as the compact order-1 text and as the 426-byte order-2 text with whitespace, unknown members and deferred content, each parsed into a buffer with arbitrary prior contents, and built with Event::from_parts into a third such buffer: all three images are byte-identical at every index and compare equal
 //@ outside: the texts are concrete (symbolic value bytes are C01's business); other layouts; escape spellings (c02_spellings_agree)
@@ -101,7 +101,7 @@ fn c02_layouts_and_parts_agree() {
 //@ tier: quick
 //@ timeout: 1800
 //@ mem: 14
-//@ unwindset: read_sig=66; read_id=34; read_pubkey=34; read_hex=66; memcmp.0=34; copy_text=600; read_u64=22; read_kind=8; burn_string=26; eat_whitespace=6; burn_number=12; patch_site=24; digits=24; fpatch=24; put_bytes=70; enc_tags=6
+//@ unwindset: read_sig=66; memchr=12; parse_json_event=12; json_unescape=40; read_id=34; read_pubkey=34; read_hex=66; memcmp.0=34; copy_text=600; read_u64=22; read_kind=8; burn_string=26; eat_whitespace=6; burn_number=12; patch_site=24; digits=24; fpatch=24; put_bytes=70; enc_tags=6
 //@ encodes: json_unescape, read_content, Event::from_json
 //@ bounds: two compact texts that differ only in how the content string is spelled (every character escaped as \uXXXX or two-character escape vs. written literally), parsed into buffers with arbitrary prior contents: byte-identical
 #[kani::proof]
@@ -163,7 +163,7 @@ fn ref_escape(c: u8, out: &mut [u8; 6]) -> usize {
 //@ tier: quick
 //@ timeout: 3000
 //@ mem: 20
-//@ unwindset: read_sig=66; read_id=34; read_pubkey=34; read_hex=66; memcmp.0=34; write_hex=66; as_json=70; push=130; c02_as_json=130; extend=140; json_escape=8; copy_text=600; read_u64=22; read_kind=8; burn_string=26; eat_whitespace=6; burn_number=12; patch_site=24; digits=24; fpatch=24; put_bytes=70; enc_tags=6
+//@ unwindset: read_sig=66; memchr=12; parse_json_event=12; json_unescape=40; read_id=34; read_pubkey=34; read_hex=66; memcmp.0=34; write_hex=66; as_json=70; push=130; c02_as_json=130; extend=140; json_escape=8; copy_text=600; read_u64=22; read_kind=8; burn_string=26; eat_whitespace=6; burn_number=12; patch_site=24; digits=24; fpatch=24; put_bytes=70; enc_tags=6
 //@ encodes: Event::as_json, Tags::as_json, json_escape, Event::from_json, json_unescape
 //@ bounds: an event held by the library (image from the reference encoder) with tags [["e", s(1)], []] and a 2-byte content; the tag byte and the second content byte are arbitrary ASCII 0x00..=0x7f incl. every control character, quote and backslash, the first content byte is a concrete control character (0x1f), kind 30023, created_at 1681778790: the serialised text equals the reference writer's text byte for byte (canonical NIP-01 escapes), and parsing it back gives a byte-identical event
 //@ outside: non-ASCII strings, symbolic integers (format! of a symbolic u64 is a division kernel that does not finish in budget), longer strings
